@@ -333,6 +333,9 @@ def build_family(tier, seed):
             perms = fam.perms(nd) + [None]
             if nd >= 2:
                 perms.append(tuple(p - nd for p in perms[1]))
+                # cyclic shifts spelled with mixed negative / non-negative axis numbers (numerically ascending, not the identity)
+                for r in range(1, nd):
+                    perms.append(tuple(range(-r, 0)) + tuple(range(0, nd - r)))
             for p in perms:
                 un.append(dict(a=a, op="transpose", perm=p))
             for op in ("conj", "dagger", "neg", "mul_scalar", "rmul_scalar", "div_scalar", "sum", "norm"):
